@@ -83,6 +83,7 @@ class Recorder:
     self.samples = []
     self.violations = []
     self.viol_count = {}
+    self._sig_count = {}
     self.notes = {}
     self.margins = {}  # site -> max(|diff| / tol)
     self.worst = {}    # site -> max |diff|
@@ -119,10 +120,13 @@ class Recorder:
   def fail(self, site, key, detail, sig=None):
     """Registers a violation of the property at `site` for the case `key`."""
     self.viol_count[site] = self.viol_count.get(site, 0) + 1
-    if self.viol_count[site] <= self.MAX_VIOL_PER_SITE:
-      s = {'site': site}
-      if sig:
-        s.update(sig)
+    s = {'site': site}
+    if sig:
+      s.update(sig)
+    # cap per full signature (not per site) so that a known-finding signature can never crowd out a new one
+    ck = json.dumps(jsonable(s), sort_keys=True)
+    self._sig_count[ck] = self._sig_count.get(ck, 0) + 1
+    if self._sig_count[ck] <= self.MAX_VIOL_PER_SITE:
       self.violations.append({'site': site, 'sig': jsonable(s), 'key': jsonable(key),
                               'detail': jsonable(detail), 'unit': jsonable(self.unit)})
 
